@@ -18,7 +18,10 @@ Multi(l) == { G("MPT", l, <<>>), G("MPT", l, <<A(l), NILPT>>), G("MPT", l, <<NIL
               G("MPT", l, <<NILPT>>),
               G("MLS", l, <<>>), G("MLS", l, <<<<>>, <<A(l), B(l)>>, <<>>>>), G("MLS", l, <<<<A(l), B(l)>>, <<C(l), D(l), A(l)>>>>),
               G("MPG", l, <<>>), G("MPG", l, <<<<>>, <<Ring(l)>>, <<>>, <<Ring(l), Ring2(l)>>>>),
-              G("MPG", l, <<<<Ring2(l)>>, <<>>>>), G("MPG", l, <<<<>>>>) }
+              G("MPG", l, <<<<Ring2(l)>>, <<>>>>), G("MPG", l, <<<<>>>>),
+              \* three and four non-empty polygons (offsets after the SECOND non-empty member), holes in a later member
+              G("MPG", l, <<<<Ring(l)>>, <<Ring2(l)>>, <<Ring(l)>>>>), G("MPG", l, <<<<Ring(l)>>, <<>>, <<Ring2(l)>>, <<Ring(l), Ring2(l)>>, <<Ring2(l)>>>>),
+              G("MLS", l, <<<<A(l), B(l)>>, <<C(l), D(l)>>, <<>>, <<B(l), C(l), A(l)>>, <<A(l), D(l)>>>>) }
 Some(l) == { G("PT", l, B(l)), G("PT", l, <<>>), G("LS", l, <<A(l), B(l)>>), G("PG", l, <<Ring(l)>>),
              G("MPT", l, <<NILPT, B(l)>>), G("MPG", l, <<<<>>, <<Ring(l)>>>>), G("MLS", l, <<<<>>>>) }
 Coll(l) == { G("GC", l, <<>>) }
